@@ -279,11 +279,22 @@ def build(cfg):
     p.geometry_transform = mat(pc['geometry_transform']) if pc['geometry_transform'] not in (None, 'none') else None
     p.integrator = NumericalIntegrator(step=pc['integrator_step'])
     p.models = [plasma_model(m) for m in pc['models']]
+    qc = cfg.get('plasma2')
+    L.plasma2 = None
+    if qc:                                                                      # a second plasma, clear of the first one
+        L.plasma2 = q = Plasma(parent=L.mid, transform=mat(qc['transform']))
+        q.b_field = Vector3D(*qc['b_field'])
+        q.electron_distribution = distribution(qc['electrons'], ELECTRON_REST_MASS)
+        q.composition = species_list(qc['composition'])
+        q.atomic_data = L.data[qc['atomic_data']]
+        q.geometry = geometry(qc['geometry'])
+        q.integrator = NumericalIntegrator(step=qc['integrator_step'])
+        q.models = [plasma_model(m) for m in qc['models']]
     bc = cfg.get('beam')
     L.beam = None
     if bc:
         L.beam = b = Beam(parent=L.mid if bc['parent'] == 'mid' else L.alt, transform=mat(bc['transform']))
-        b.plasma = p
+        b.plasma = L.plasma2 if bc.get('plasma') == 'q' else p
         b.atomic_data = L.data[bc['atomic_data']]
         b.energy = bc['energy']
         b.power = bc['power']
@@ -301,7 +312,7 @@ def build(cfg):
     if lc:
         L.laser = l = Laser(parent=L.mid if lc['parent'] == 'mid' else L.alt, transform=mat(lc['transform']))
         l.integrator = NumericalIntegrator(step=lc['integrator_step'])
-        l.plasma = p
+        l.plasma = L.plasma2 if lc.get('plasma') == 'q' else p
         l.importance = lc['importance']
         l.laser_spectrum = laser_spectrum(lc['spectrum'])
         l.laser_profile = laser_profile(lc['profile'])
@@ -340,6 +351,9 @@ def observe(L, wl=(480.0, 560.0, 16), order=None):
                 bb = c.bounding_box()
                 out.extend([bb.lower.x, bb.lower.y, bb.lower.z, bb.upper.x, bb.upper.y, bb.upper.z])
         out.append(float(L.plasma.ion_density(0.1, 0.2, 0.3)))
+        if getattr(L, 'plasma2', None) is not None:
+            out.append(float(L.plasma2.ion_density(0.1, 0.2, 0.3)))
+            out.append(float(L.plasma2.electron_distribution.density(0.1, 0.2, 0.3)))
         try:
             out.append(float(L.plasma.z_effective(0.1, 0.2, 0.3)))
         except ValueError:
